@@ -80,8 +80,11 @@ def shard(args):
         if not chain and rng.random() < 0.7:
             nid = (bytes([d['id'][0] ^ 0x5a]) if d['id'] else b'') + bytes(rng.randrange(256) for _ in range(rng.randrange(4, 7)))
             npbsb = d['pbsb'] if d['id'] else 'b5aa'
-            nbline = '\n%s,cc,nb,,,%s,%s,%s,x,,UCH' % (d['type'], d['zz'], npbsb, nid.hex())
-        lines.append('LOAD\tm\t' + esc('\n' + line + nbline + '\n'))
+            nzz = '08' if d['zz'] == 'fe' else d['zz']      # (a broadcast definition next to a longer non-broadcast one)
+            nbline = '%s,cc,nb,,,%s,%s,%s,x,,UCH' % (d['type'], nzz, npbsb, nid.hex())
+        # either load order
+        both = ('\n' + line + '\n' + nbline + '\n') if (not nbline or rng.random() < 0.5) else ('\n' + nbline + '\n' + line + '\n')
+        lines.append('LOAD\tm\t' + esc(both))
         if not chain:
             mvals = [rng.choice(f['values']) for f in d['fields'] if f['part'] == 'm']
             svals = [rng.choice(f['values']) for f in d['fields'] if f['part'] == 's']
@@ -133,7 +136,7 @@ def shard(args):
                     viol.append(('slave-nn-wrong', '%r -> slave %s expected NN %d' % (line, s.hex(), slen)))
                     continue
             # second batch: fresh map (nothing cached), find + store via the passive path + decode
-            lines2 = ['TIME\t%d' % now, 'NEW\tm\t0', 'LOAD\tm\t' + esc('\n' + line + nbline + '\n'),
+            lines2 = ['TIME\t%d' % now, 'NEW\tm\t0', 'LOAD\tm\t' + esc(both),
                       'FIND\tm\t%s\t0\t1\t1\t1\t1' % m.hex(), 'STOREM\tm\t%s\t%s' % (m.hex(), s.hex()),
                       'DECODE\tm\tcc\t%s\t%d\t0\t0' % (d['name'], d['type'] == 'w')]
             rc, out2, err = run_server(exe, lines2)
@@ -227,10 +230,47 @@ def shard(args):
                     else:
                         lines2.append('STOREP\tm\tcc\t%s\t%d\t%d\t%s\t%s' % (d['name'], d['type'] == 'w', i, masters[i].hex(), sl[i].hex()))
                 lines2.append('DECODE\tm\tcc\t%s\t%d\t0\t0' % (d['name'], d['type'] == 'w'))
+                first_decode_at = len(lines2) - 1
+                # a second read cycle into the same (now cached) chain: some parts carry new data, at least one is unchanged,
+                # again in any order and possibly much later; the decoded value must follow
+                text2 = None
+                if d['type'] == 'r':
+                    keep = rng.randrange(n)
+                    payload2 = bytearray(payload)
+                    off2 = 0
+                    for i in range(n):
+                        if i != keep and rng.random() < 0.8:
+                            for k in range(off2, off2 + d['lens'][i]):
+                                payload2[k] ^= 0x5a
+                        off2 += d['lens'][i]
+                    sl2, off2 = [], 0
+                    for i in range(n):
+                        sl2.append(bytes([d['lens'][i]]) + bytes(payload2[off2:off2 + d['lens'][i]]))
+                        off2 += d['lens'][i]
+                    order2 = list(range(n))
+                    rng.shuffle(order2)
+                    t += rng.choice([1, 5, 60, 600])
+                    for i in order2:
+                        t += rng.choice([0, 1, 3])
+                        lines2.append('TIME\t%d' % t)
+                        if path == 'passive':
+                            lines2.append('STOREM\tm\t%s\t%s' % (masters[i].hex(), sl2[i].hex()))
+                        else:
+                            lines2.append('STOREP\tm\tcc\t%s\t%d\t%d\t%s\t%s' % (d['name'], 0, i, masters[i].hex(), sl2[i].hex()))
+                    lines2.append('DECODE\tm\tcc\t%s\t0\t0\t0' % d['name'])
+                    text2 = ' '.join('%02x' % b for b in payload2)
                 rc, out2, err = run_server(exe, lines2)
                 if rc != 0:
                     return stats, viol, (rc, err)
-                de = out2[-1]
+                if text2 is not None:
+                    de2 = out2[-1]
+                    got2 = unesc(de2[2]) if len(de2) > 2 else ''
+                    stats['second_cycles'] = stats.get('second_cycles', 0) + 1
+                    if de2[1] != '0' or got2 != text2:
+                        viol.append(('chain-rejoin-second-cycle', '%r first payload %s, second payload %s (part %d unchanged) stored via %s path in order %s after order %s -> decode %s %r' % (
+                            line, payload.hex(), bytes(payload2).hex(), keep, path, order2, order, de2[1], got2)))
+                        break
+                de = out2[first_decode_at]
                 stats['arrival_orders'] += 1
                 got = unesc(de[2]) if len(de) > 2 else ''
                 if de[1] != '0' or got != text:
